@@ -200,6 +200,12 @@ def run_check(chk, tier, seed, replay, t0):
             kf = [e for e in known if e.get("signature") == sig]
             if kf:
                 out_lines.append("KNOWN-FINDING: property=%s %s" % (pid, kf[0].get("what", sig)))
+                # a recorded finding explains a case only when the model (which mirrors the recorded behaviour) agrees
+                # with the implementation on it; a case with this signature AND a broken correspondence is something
+                # else hiding behind the finding's name: hand it to the neighbourhood search below
+                extra = [x for x in spec_fail if x[3].get("corr") != "ok" and
+                         (chk.signature(x[2], x[3]) if hasattr(chk, "signature") else x[0]) == sig]
+                corr_only.extend(("corr",) + tuple(x[1:]) for x in extra[:8])
                 continue
             small = shrink(chk, sc, build, case, kind, min(spec_deadline, time.time() + budget / 3))
             rr, vv = run_cases(chk, sc, build, [dict(small, id=0)], 1)
